@@ -46,11 +46,10 @@ Definition handed (s : sys) (c : nat) (n : oname) (str : bytes) : Prop :=
   exists b, In {| o_chan := c; o_name := n; o_str := str; o_sent := b |} (s_out s).
 
 (* ---------- the frame rule: a frame for channel c touches channel c only ---------- *)
-Theorem on_frame_other s c f c' : c' <> c ->
-  get_chan (s_chans (on_frame s c f)) c' = get_chan (s_chans s) c'.
+Lemma on_frame_plain_other s c v f c' : c' <> c ->
+  get_chan (s_chans (on_frame_plain s c v f)) c' = get_chan (s_chans s) c'.
 Proof.
-  intros Hne. unfold on_frame.
-  destruct (get_chan (s_chans s) c) as [v|] eqn:Ev; [|reflexivity].
+  intros Hne. unfold on_frame_plain.
   destruct (req_get (c_req v) (f_name f)) as [u|].
   - destruct (resp_get (c_resp v) u); [now apply upd_other | reflexivity].
   - destruct (is_content (f_name f)); [now apply upd_other|].
@@ -60,13 +59,22 @@ Proof.
            now destruct (write_chans s c WChCloseOk []) as [-> _]).
 Qed.
 
-Theorem on_frame_conn s c f : s_sendfail s = false ->
-  s_conn (on_frame s c f) = s_conn s /\ s_cerrs (on_frame s c f) = s_cerrs s /\
-  s_io (on_frame s c f) = s_io s.
+Theorem on_frame_other s c f c' : c' <> c ->
+  get_chan (s_chans (on_frame s c f)) c' = get_chan (s_chans s) c'.
+Proof.
+  intros Hne. unfold on_frame.
+  destruct (get_chan (s_chans s) c) as [v|] eqn:Ev; [|reflexivity].
+  destruct (c_ret v) as [lft|]; [|now apply on_frame_plain_other].
+  destruct (ret_content lft f) as [r|]; [now apply upd_other|].
+  rewrite on_frame_plain_other by exact Hne. now apply upd_other.
+Qed.
+
+Lemma on_frame_plain_conn s c v f : s_sendfail s = false ->
+  s_conn (on_frame_plain s c v f) = s_conn s /\ s_cerrs (on_frame_plain s c v f) = s_cerrs s /\
+  s_io (on_frame_plain s c v f) = s_io s.
 Proof.
   intros Hsf.
-  unfold on_frame.
-  destruct (get_chan (s_chans s) c) as [v|]; [|auto].
+  unfold on_frame_plain.
   destruct (req_get (c_req v) (f_name f)) as [u|].
   - destruct (resp_get (c_resp v) u); [|auto]. destruct (upd_conn s c (with_rpc v (c_req v) (resp_set (c_resp v) u (l ++ [f])))) as (A & B & _ & D & _). auto.
   - destruct (is_content (f_name f)).
@@ -79,14 +87,35 @@ Proof.
       try (destruct (write_chans s c WChCloseOk []) as (_ & X & Y & _ & Z & _); rewrite (Y Hsf); auto).
 Qed.
 
-Lemma on_frame_sendfail s c f : s_sendfail (on_frame s c f) = s_sendfail s.
+Theorem on_frame_conn s c f : s_sendfail s = false ->
+  s_conn (on_frame s c f) = s_conn s /\ s_cerrs (on_frame s c f) = s_cerrs s /\
+  s_io (on_frame s c f) = s_io s.
 Proof.
-  unfold on_frame. destruct (get_chan (s_chans s) c) as [v|]; [|reflexivity].
+  intros Hsf. unfold on_frame.
+  destruct (get_chan (s_chans s) c) as [v|]; [|auto].
+  destruct (c_ret v) as [lft|]; [|now apply on_frame_plain_conn].
+  destruct (ret_content lft f) as [r|].
+  - match goal with |- context [upd s c ?x] => destruct (upd_conn s c x) as (A & B & _ & D & _); auto end.
+  - destruct (upd_conn s c (with_ret v None)) as (A & B & _ & D & _ & SF).
+    destruct (on_frame_plain_conn (upd s c (with_ret v None)) c (with_ret v None) f) as (A' & B' & D');
+      [congruence|]. rewrite A', B', D'. auto.
+Qed.
+
+Lemma on_frame_plain_sendfail s c v f : s_sendfail (on_frame_plain s c v f) = s_sendfail s.
+Proof.
+  unfold on_frame_plain.
   destruct (req_get (c_req v) (f_name f)) as [u|].
   - destruct (resp_get (c_resp v) u); reflexivity.
   - destruct (is_content (f_name f)); [reflexivity|].
     destruct (f_name f); try reflexivity.
     unfold close_channel. destruct (st_eqb (s_conn s) CLOSED); reflexivity.
+Qed.
+
+Lemma on_frame_sendfail s c f : s_sendfail (on_frame s c f) = s_sendfail s.
+Proof.
+  unfold on_frame. destruct (get_chan (s_chans s) c) as [v|]; [|reflexivity].
+  destruct (c_ret v) as [lft|]; [|apply on_frame_plain_sendfail].
+  destruct (ret_content lft f); [reflexivity|]. rewrite on_frame_plain_sendfail. reflexivity.
 Qed.
 
 (* ---------- the broker closes a channel: exactly one CloseOk, whatever is queued ---------- *)
@@ -213,6 +242,25 @@ Qed.
 (* n returned messages queue n errors, in order, and leave the channel open *)
 Definition ret_frame (code : Z) : frame := {| f_name := NReturn; f_num := code; f_str := [] |}.
 
+Lemma ret_content_return lft code : ret_content lft (ret_frame code) = None.
+Proof. unfold ret_content, ret_frame. cbn. now rewrite !andb_false_r. Qed.
+
+Opaque upd.
+Lemma return_step s c v code :
+  get_chan (s_chans s) c = Some v -> c_req v = [] ->
+  exists v1, get_chan (s_chans (on_frame s c (ret_frame code))) c = Some v1 /\
+             c_errs v1 = c_errs v ++ [{| e_kind := EMsg; e_code := Some code |}] /\
+             c_state v1 = c_state v /\ c_req v1 = [].
+Proof.
+  intros Hreg Hreq. unfold on_frame. rewrite Hreg.
+  destruct (c_ret v) as [lft|].
+  - rewrite ret_content_return. unfold on_frame_plain. cbn [with_ret c_req]. rewrite Hreq. cbn.
+    eexists. split; [eapply upd_same; eapply upd_same; exact Hreg|]. cbn. auto.
+  - unfold on_frame_plain. rewrite Hreq. cbn.
+    eexists. split; [eapply upd_same; exact Hreg|]. cbn. auto.
+Qed.
+Transparent upd.
+
 Theorem returns_queue_fifo : forall codes s c v,
   get_chan (s_chans s) c = Some v -> c_req v = [] ->
   exists v', get_chan (s_chans (fold_left (fun s code => on_frame s c (ret_frame code)) codes s)) c = Some v' /\
@@ -221,11 +269,7 @@ Theorem returns_queue_fifo : forall codes s c v,
 Proof.
   induction codes as [|code codes IH]; intros s c v Hreg Hreq; cbn [fold_left map].
   - exists v. rewrite app_nil_r. auto.
-  - set (v1 := with_errs v (c_errs v ++ [{| e_kind := EMsg; e_code := Some code |}])).
-    assert (H1 : on_frame s c (ret_frame code) = upd s c v1).
-    { unfold on_frame. rewrite Hreg, Hreq. reflexivity. }
-    rewrite H1. destruct (IH (upd s c v1) c v1) as (v' & G & E & S & R).
-    + eapply upd_same; eauto.
-    + exact Hreq.
-    + exists v'. split; [exact G|]. rewrite E. cbn. rewrite <- app_assoc. auto.
+  - destruct (return_step s c v code Hreg Hreq) as (v1 & G1 & E1 & S1 & R1).
+    destruct (IH _ c v1 G1 R1) as (v' & G & E & S & R).
+    exists v'. split; [exact G|]. rewrite E, E1, <- app_assoc. cbn. split; [reflexivity|]. split; congruence.
 Qed.
